@@ -187,6 +187,9 @@ class Property:
     quick_n = 600
     thorough_n = 20000
     rule = ""
+    boosted = True
+    boost_only = None
+    boost_exclude = ()
 
     def profile(self, r):
         return Profile()
@@ -195,6 +198,16 @@ class Property:
         r = Rng(seed * 1000003 + idx * 7919 + 17)
         c = gen.gen_case(r, self.profile(r), idx)
         self.tweak(r, c)
+        # one case in seven is generated from a parsed document and a settings object that were already used for
+        # other generations with other option values (harness: generate_after_history); the outputs must be those of
+        # a first use, so everything that follows (model equality, predicates, links) is the same
+        if idx % 7 == 3:
+            c["history"] = True
+        # one case in four carries one to three features forced into it (vlib/boost.py): the combinations that
+        # independent draws reach only with the product of small probabilities
+        if idx % 4 == 2 and self.boosted:
+            from . import boost
+            boost.boost(Rng(seed * 7368787 + idx * 104729 + 5), c, self.boost_only, self.boost_exclude)
         return c
 
     def tweak(self, r, c):
@@ -1231,6 +1244,11 @@ class C19(Property):
         r = Rng(seed * 1000003 + idx * 7919 + 17)
         c = gen.gen_case(r, self.profile(r), idx)
         k = idx % 4
+        if k == 2 or (k == 0 and idx % 8 == 0):
+            from . import boost
+            boost.boost(Rng(seed * 7368787 + idx * 104729 + 5), c)
+            if idx % 7 == 3:
+                c["history"] = True
         if k == 1:
             C16().tweak(r, c)
             if r.chance(0.3):
@@ -1345,7 +1363,10 @@ class C19(Property):
             texts = [impl.get("script") or ""] + [t for _, t in impl.get("partials", [])]
             leftover = any(re.search(r"\{[^{}/\s]*\}", line) for t in texts for line in t.split("\n")
                            if line.strip() not in ("{", "}") and " : { *(" not in line)
-        if impl.get("outcome") == "ok" and (c.get("link") or leftover):
+        # (an option value that itself contains braces puts them into the paths legitimately: such names are no linker
+        #  identifiers and the acceptance clause does not speak about them)
+        braces_in_values = any("{" in v or "}" in v for _, v in c["opts"])
+        if impl.get("outcome") == "ok" and ((c.get("link") and not braces_in_values) or leftover):
             bad = link_syntax_check(c, impl)
             res["linked"] = bad is not None
             if bad:
@@ -1567,6 +1588,9 @@ class ImageProperty(Property):
     thorough_n = 12000
     link_every = 3
     checks = ()
+    # (a section in both the allocatable and the noload list gives two groups one set of symbols: nothing the layout
+    #  clauses say is well defined there; the defaults side of that feature is C08's)
+    boost_exclude = ("alloc_holds_noload_names",)
 
     def base_profile(self, r, **kw):
         # (partial-mode cases are compared at text level only; two-step links are C11's)
@@ -1812,7 +1836,9 @@ class C05(ImageProperty):
         offs = collections.Counter(n for s in info["segments"] if s["emitted"] for n in (s.get("offsets") or []))
         every = collections.Counter(re.findall(r"^\s*(?:PROVIDE\(|HIDDEN\(|PROVIDE_HIDDEN\()?([^\s=()]+) = ", text, re.M))
         twice = [n for n, k in offs.items() if every.get(n, 0) > k]
-        if twice:
+        # (a section listed twice - in both lists, or as a sub-group of two sections - is walked twice, and so is a linker
+        #  offset in it: "one symbol per entry" is stated for tables in which every section has one place)
+        if twice and all(s.get("tables_ok", True) for s in info["segments"] if s["emitted"]):
             res.update(status="violation", why="linker-offset symbols assigned more often than there are entries (%s mode): %s" % (c["mode"], ", ".join(twice[:4])))
             return res
         if not info["single"]:
@@ -1866,9 +1892,11 @@ class C09(ImageProperty):
             return res
         # single-segment layout (single_segment_mode, and every partial script): one output section per section group,
         # each with the segment's SUBALIGN
-        byname = {sg["name"]: sg for sg in info["segments"]}
-        layouts = [(info["segments"][0], impl.get("script") or "")] if info["single"] and info["segments"] else \
-            [(byname[n], t) for n, t in impl.get("partials", []) if n in byname]
+        # (partial scripts come in the order of the emitted segments; a name may be used by two segments)
+        em = [sg for sg in info["segments"] if sg["emitted"]]
+        parts = impl.get("partials", [])
+        paired = [(sg, t) for sg, (n, t) in zip(em, parts) if sg["name"] == n] if len(em) == len(parts) else []
+        layouts = [(info["segments"][0], impl.get("script") or "")] if info["single"] and info["segments"] else paired
         for sg, text in layouts:
             wantS = [sg["subalign"]] * len(sg["sections"]) if sg.get("subalign") is not None else []
             gotS = [int(x) for x in re.findall(r"SUBALIGN\((\d+)\)", text)]
